@@ -112,9 +112,10 @@ MONITOR = WorkMonitor()
 DEFAULT_LIMIT = 20_000_000
 
 
-def work_bound(n, diagram_size):
-    """B(n, N) of DESIGN.md (C13)"""
-    return int(2e7 * max(1.0, 4.0 ** (n - 6)) * (1 + diagram_size / 50.0))
+def work_bound(n, diagram_size, simulation_budget=1000):
+    """B(n, N) of DESIGN.md (C13), plus the work the caller explicitly asks for through
+    `minimum_simulation_budget` (the simulation loop legitimately runs ~budget*n walk steps of n updates)"""
+    return int(2e7 * max(1.0, 4.0 ** (n - 6)) * (1 + diagram_size / 50.0) + 40 * simulation_budget * (n + 1) ** 2)
 
 
 class guarded:
